@@ -409,7 +409,10 @@ func (g *gctx) malformV2(doc map[string]any) string {
 func (g *gctx) malformV1(doc map[string]any) string {
 	r := g.r
 	def, _ := doc["default_config"].(map[string]any)
-	switch r.Intn(8) {
+	switch r.Intn(9) {
+	case 8:
+		doc["version"] = []any{1, 3, -1, "0", 2, 1}[r.Intn(6)]
+		return "v1-version"
 	case 6:
 		def["fee_recipient"] = []string{"0x1234", "0x11111111111111111111111111111111111111", "0x111111111111111111111111111111111111111122"}[r.Intn(3)]
 		return "v1-fee-length"
